@@ -29,6 +29,7 @@
 #include <filesystem>
 #include <fstream>
 #include <iostream>
+#include <dlfcn.h>
 #include <sys/personality.h>
 #include <sys/wait.h>
 #include <unistd.h>
@@ -281,7 +282,9 @@ static int childMain(int argc, char **argv) {
 		runVariant(s, out / "s2", 2);
 		setMode(NORMAL, 0);
 	}
-	std::ofstream(out / "alloc.txt") << "arena_served " << g_served.load() << '\n';
+	auto shimCalls = (unsigned long (*)()) dlsym(RTLD_DEFAULT, "c10_shim_calls");
+	std::ofstream(out / "alloc.txt") << "arena_served " << g_served.load() << " shim_active " << (shimCalls && shimCalls() > 0 ? 1 : 0)
+		<< " aslr_off " << ((personality(0xffffffff) & ADDR_NO_RANDOMIZE) ? 1 : 0) << '\n';
 	return 0;
 }
 
@@ -328,15 +331,18 @@ static Snapshot snapshot(const fs::path &dir) {
 }
 
 static std::string kindOf(const std::string &file) {
+	auto ends = [&](const char *s) { std::string e = s; return file.size() >= e.size() && file.compare(file.size() - e.size(), e.size(), e) == 0; };
 	if (file.rfind("trace_", 0) == 0) return "trace";
 	if (file == "status.txt") return "status";
-	if (file.find("testvectors") != std::string::npos || file.find("testbench") != std::string::npos) return "testvectors";
-	if (file.find("projectFile") != std::string::npos || file.find("standAlone") != std::string::npos) return "filelist";
-	if (file.size() > 4 && (file.substr(file.size() - 4) == ".vhd" || file.substr(file.size() - 5) == ".vhdl")) return "vhdl";
+	if (file.find("testvectors") != std::string::npos) return "testvectors";
+	if (file.find("projectFile") != std::string::npos || file.find("standAlone") != std::string::npos || ends(".do") || ends(".sh") || ends(".tcl") || ends(".qsf") || ends(".xpr"))
+		return "filelist"; // project scripts: lists of source files in compile order
+	if (file.find("testbench") != std::string::npos) return "testvectors";
+	if (ends(".vhd") || ends(".vhdl")) return "vhdl";
 	return "other";
 }
 
-static std::string oneLine(std::string s) { for (auto &c : s) if (c == '\n' || c == '\r') c = ' '; if (s.size() > 300) s.resize(300); return s; }
+static std::string oneLine(std::string s) { for (auto &c : s) if (c == '\n' || c == '\r') c = ' '; while (!s.empty() && s.back() == ' ') s.pop_back(); if (s.size() > 300) s.resize(300); return s; }
 
 // first difference between two snapshots (restricted to trace files if tracesOnly); returns false if equal
 static bool firstDiff(const Snapshot &a, const Snapshot &b, bool tracesOnly, std::ostream &o, const std::string &an, const std::string &bn) {
@@ -401,7 +407,7 @@ static int designStream(uint64_t seed, uint64_t ncases, uint64_t nsteps, unsigne
 		// collect
 		Snapshot ref = snapshot(cdir / "L0" / "b0");
 		{ auto it = ref.files.find("status.txt"); if (it != ref.files.end()) o << "info " << oneLine(it->second) << '\n'; }
-		size_t mism = 0;
+		size_t mism = 0; std::set<std::string> seenKinds;
 		for (unsigned l = 0; l < nlayouts; l++) {
 			fs::path ld = cdir / ("L" + std::to_string(l));
 			if (!fs::exists(ld)) continue;
@@ -422,7 +428,11 @@ static int designStream(uint64_t seed, uint64_t ncases, uint64_t nsteps, unsigne
 				o << "variant " << name << " kind=" << (shuffle ? "shuffle" : "full") << " files=" << nf << " digest=" << vh::hex64(dg) << " trace=" << vh::hex64(tr) << '\n';
 				if (name == "L0/b0") continue;
 				std::ostringstream mm;
-				if (firstDiff(ref, sn, shuffle, mm, "L0/b0", name)) { if (mism++ < 3) o << mm.str(); }
+				if (firstDiff(ref, sn, shuffle, mm, "L0/b0", name)) { // one block per distinct (kind, shuffle?) so that a known difference cannot hide a new one
+					std::string s = mm.str(); size_t kp = s.find(" kind="); std::string key = s.substr(kp, s.find(' ', kp + 1) - kp) + (shuffle ? "s" : "l");
+					if (seenKinds.insert(key).second) o << s;
+					mism++;
+				}
 			}
 			auto sn = snapshot(ld);
 			if (sn.files.count("alloc.txt")) o << "alloc L" << l << ' ' << oneLine(sn.files["alloc.txt"]) << '\n';
